@@ -242,6 +242,10 @@ class Application(object):
         """
         if index is None:
             index = len(self.routes)
+        elif index < 0:
+            # same position list.insert() would pick, fixed once so
+            # that several routes (a SubApplication) stay together
+            index = max(0, len(self.routes) + index)
         rf = cast_to_route_factory(entry)
 
         kwargs.setdefault('rebind_render', getattr(rf, 'rebind_render', True))
